@@ -6,6 +6,7 @@ import Proofs.C10.ExampleKey
 import Proofs.C10.ExampleEcdsa
 import Proofs.C10.Checker
 import Proofs.C10.Bip322
+import Proofs.C10.Built
 import Proofs.E2E.C10
 import Props.C09
 /-!
@@ -1517,6 +1518,130 @@ finished input and on tampered ones, is what covers them):
 * closure for a `multi_a` leaf: the library's own finalizer refuses such a leaf (`single_leaf_key`); the flows close it
   with a solver built on `miniscript.satisfy`, and its satisfaction is C15's business;
 * that `Der.serialize r s ‖ ht` passes `checkSignatureEncoding` (BIP66 validity of the DER writer's output, low s, defined
-  hash type) is a hypothesis of the closures; it is observed on every signature of every flow (`c10.verdict`).
+  hash type) is a hypothesis of the closures above; it is PROVED below (`built_sig_passes_encoding`) and discharged in
+  the `_built` closures; the other `_secp256k1` closures (multisig, wrapped pk/pkh, BIP322) still carry `hp` / `henc`:
+  `built_key_parses` and `built_sig_passes_encoding` are the lemmas that discharge them, one application each, not made.
 -/
+
+/-! ### AUDIT3 Top 3: the key octets and the signature bytes are the ones the library BUILDS
+
+`pk := secpCompressedKey (q·G)` (= C01's model of `bytes_from_point(q·G, compressed=True)`, `built_key_is_bytes_from_point`)
+and `sig := DER(_sign_recoverable_(…, low_s)) ‖ ht`: `hp` (the octets read back as `q·G`), `hpk` (compressed form), `henc`
+(Core's `CheckSignatureEncoding` under the flags), `hmax`, `hslen`, `hs`, `hs2` and p2pk's `hne` are no longer
+hypotheses.  New hypotheses, both about the REQUEST, not the output: `0 < q < n` (the private key range
+`int_from_prv_key` enforces) and `ht & 0x7f ∈ {1,2,3}` (the six hash types ECDSA signing is defined for; under STRICTENC
+the engine refuses any other). -/
+
+/-- (a) the compressed SEC octets the library writes for `q·G`, `0 < q < n`, are read by the signature checker's key
+    reader (`secpParsePub`, btclib `point_from_octets(·, hybrid=True)`) as `q·G` -/
+theorem built_key_parses (q : Int) (hq : 0 < q ∧ q < EC.secp256k1.n) :
+    secpParsePub (secpCompressedKey ((EC.ops EC.secp256k1).mul q EC.secp256k1.G)) =
+      some ((EC.ops EC.secp256k1).mul q EC.secp256k1.G) := secpParsePub_built q hq
+
+/-- … and those octets ARE what C01's model of `bytes_from_point(q·G, compressed=True)` answers (tied to btclib by C01's
+    `sec` stream), and a compressed key in Core's sense -/
+theorem built_key_is_bytes_from_point (q : Int) (hq : 0 < q ∧ q < EC.secp256k1.n) :
+    Btc.C01.bytesFromPoint EC.secp256k1.toCurveGroup 32 ((EC.ops EC.secp256k1).mul q EC.secp256k1.G) true =
+      some (secpCompressedKey ((EC.ops EC.secp256k1).mul q EC.secp256k1.G)) ∧
+    isCompressedPubKey (secpCompressedKey ((EC.ops EC.secp256k1).mul q EC.secp256k1.G)) = true :=
+  ⟨secpCompressedKey_is_bytesFromPoint q hq, secpCompressedKey_compressed _⟩
+
+/-- (b) what `_sign_recoverable_(c, q, k, low_s=True)` answers on secp256k1, DER-serialized and followed by a defined
+    hash-type byte, passes Core's `CheckSignatureEncoding` under EVERY flag set (BIP66, LOW_S, STRICTENC); the DER part has
+    8..72 bytes and starts with 0x30 -/
+theorem built_sig_passes_encoding (flags : Nat) (ht : Nat) (hht : ht < 256) (hd : 1 ≤ ht % 128 ∧ ht % 128 ≤ 3)
+    {c q k r s kid : Int} (hk : 0 < k ∧ k < EC.secp256k1.n)
+    (hsign : Ecdsa.signRecoverable (EC.ops EC.secp256k1) c q k true = .ok (r, s, kid))
+    (der : Bytes) (hder : Der.serialize r s = .ok der) :
+    checkSignatureEncoding flags (der ++ [UInt8.ofNat ht]) = .ok () ∧ 8 ≤ der.length ∧ der.length ≤ 72 ∧
+      getB der 0 = 0x30 := by
+  obtain ⟨hv, hlow⟩ := Btc.E2E.ecdsa_sign_verifies_secp256k1 hk hsign
+  exact verified_sig_encoding flags c _ r s ht der hv (hlow rfl) hht hd hder
+
+example : (1 : Nat) ≤ 0x83 % 128 ∧ 0x83 % 128 ≤ 3 := by decide
+
+/-- **T1 end to end on secp256k1 (p2wpkh), on what the library builds**: no encoding hypothesis left; what remains is the
+    hash160 commitment of the program (`hh`, `hl`) and that it is not a `false` byte string (`hnz`). -/
+theorem closure_p2wpkh_secp256k1_built (vk : Bytes → Bool) (flags : Nat) (cx : TxCtx) (h : Bytes) (ht : Nat)
+    (hht : ht < 256) (hd : 1 ≤ ht % 128 ∧ ht % 128 ≤ 3) {q k r s kid : Int} (hq : 0 < q ∧ q < EC.secp256k1.n)
+    (hl : h.length = 20) (hW : has flags FLAG_WITNESS = true) (hnz : castToBool h = true)
+    (hh : ripemd160 (sha256 (secpCompressedKey ((EC.ops EC.secp256k1).mul q EC.secp256k1.G))) = h)
+    (hk : 0 < k ∧ k < EC.secp256k1.n)
+    (hsign : Ecdsa.signRecoverable (EC.ops EC.secp256k1)
+      (Rfc6979.challenge EC.secp256k1.n (engineEcdsaDigest secpCrypto cx (p2pkh h) .WITNESS_V0 ht)) q k true =
+        .ok (r, s, kid))
+    (der : Bytes) (hder : Der.serialize r s = .ok der) :
+    ∃ ss wit, finalizedInput vk ⟨some (p2wpkh h), [], [],
+        [(secpCompressedKey ((EC.ops EC.secp256k1).mul q EC.secp256k1.G), der ++ [UInt8.ofNat ht])]⟩ = .ok (ss, wit) ∧
+      verifyScript (envOf secpCrypto flags cx) ss (p2wpkh h) wit = .ok () := by
+  obtain ⟨henc, _, h72, _⟩ := built_sig_passes_encoding flags ht hht hd hk hsign der hder
+  exact closure_p2wpkh_secp256k1 vk flags cx h _ ht hht hl hW hnz hh (secpCompressedKey_compressed _)
+    (secpParsePub_built q hq) hk hsign der hder (by simp only [Gen.VarInt.MAX_SIZE]; omega) henc
+    (by simp only [List.length_append, List.length_singleton]; omega)
+
+/-- **T1 end to end on secp256k1 (p2sh-p2wpkh), on what the library builds**. -/
+theorem closure_p2sh_p2wpkh_secp256k1_built (vk : Bytes → Bool) (flags : Nat) (cx : TxCtx) (h hr : Bytes) (ht : Nat)
+    (hht : ht < 256) (hd : 1 ≤ ht % 128 ∧ ht % 128 ≤ 3) {q k r s kid : Int} (hq : 0 < q ∧ q < EC.secp256k1.n)
+    (hl : h.length = 20) (hrl : hr.length = 20)
+    (hP : has flags FLAG_P2SH = true) (hW : has flags FLAG_WITNESS = true) (hnz : castToBool h = true)
+    (hhr : ripemd160 (sha256 (p2wpkh h)) = hr)
+    (hh : ripemd160 (sha256 (secpCompressedKey ((EC.ops EC.secp256k1).mul q EC.secp256k1.G))) = h)
+    (hk : 0 < k ∧ k < EC.secp256k1.n)
+    (hsign : Ecdsa.signRecoverable (EC.ops EC.secp256k1)
+      (Rfc6979.challenge EC.secp256k1.n (engineEcdsaDigest secpCrypto cx (p2pkh h) .WITNESS_V0 ht)) q k true =
+        .ok (r, s, kid))
+    (der : Bytes) (hder : Der.serialize r s = .ok der) :
+    ∃ ss wit, finalizedInput vk ⟨some (p2sh hr), p2wpkh h, [],
+        [(secpCompressedKey ((EC.ops EC.secp256k1).mul q EC.secp256k1.G), der ++ [UInt8.ofNat ht])]⟩ = .ok (ss, wit) ∧
+      verifyScript (envOf secpCrypto flags cx) ss (p2sh hr) wit = .ok () := by
+  obtain ⟨henc, _, h72, _⟩ := built_sig_passes_encoding flags ht hht hd hk hsign der hder
+  exact closure_p2sh_p2wpkh_secp256k1 vk flags cx h hr _ ht hht hl hrl hP hW hnz hhr hh (secpCompressedKey_compressed _)
+    (secpParsePub_built q hq) hk hsign der hder (by simp only [Gen.VarInt.MAX_SIZE]; omega) henc
+    (by simp only [List.length_append, List.length_singleton]; omega)
+
+/-- **T1 end to end on secp256k1 (p2pkh), on what the library builds**; `hne` (the signature element is not literally the
+    20-byte hash: what FindAndDelete needs) stays. -/
+theorem closure_p2pkh_secp256k1_built (vk : Bytes → Bool) (flags : Nat) (cx : TxCtx) (h : Bytes) (ht : Nat)
+    (hht : ht < 256) (hd : 1 ≤ ht % 128 ∧ ht % 128 ≤ 3) {q k r s kid : Int} (hq : 0 < q ∧ q < EC.secp256k1.n)
+    (hl : h.length = 20)
+    (hh : ripemd160 (sha256 (secpCompressedKey ((EC.ops EC.secp256k1).mul q EC.secp256k1.G))) = h)
+    (hk : 0 < k ∧ k < EC.secp256k1.n)
+    (hsign : Ecdsa.signRecoverable (EC.ops EC.secp256k1)
+      (Rfc6979.challenge EC.secp256k1.n (engineEcdsaDigest secpCrypto cx (p2pkh h) .BASE ht)) q k true = .ok (r, s, kid))
+    (der : Bytes) (hder : Der.serialize r s = .ok der)
+    (hne : der ++ [UInt8.ofNat ht] ≠ h) :
+    ∃ ss wit, finalizedInput vk ⟨some (p2pkh h), [], [],
+        [(secpCompressedKey ((EC.ops EC.secp256k1).mul q EC.secp256k1.G), der ++ [UInt8.ofNat ht])]⟩ = .ok (ss, wit) ∧
+      verifyScript (envOf secpCrypto flags cx) ss (p2pkh h) wit = .ok () := by
+  obtain ⟨henc, h8, h72, _⟩ := built_sig_passes_encoding flags ht hht hd hk hsign der hder
+  exact closure_p2pkh_secp256k1 vk flags cx h _ ht hht hl hh (secpCompressedKey_compressed _)
+    (secpParsePub_built q hq) hk hsign der hder (by simp only [Gen.VarInt.MAX_SIZE]; omega) henc
+    (by simp only [List.length_append, List.length_singleton]; omega)
+    (by simp only [List.length_append, List.length_singleton]; omega) hne
+
+/-- **T1 end to end on secp256k1 (p2pk), on what the library builds**: NO byte-level hypothesis left (the signature
+    element starts with 0x30, the key with 02 / 03, so FindAndDelete's `hne` is proved). -/
+theorem closure_p2pk_secp256k1_built (vk : Bytes → Bool) (flags : Nat) (cx : TxCtx) (ht : Nat)
+    (hht : ht < 256) (hd : 1 ≤ ht % 128 ∧ ht % 128 ≤ 3) {q k r s kid : Int} (hq : 0 < q ∧ q < EC.secp256k1.n)
+    (hk : 0 < k ∧ k < EC.secp256k1.n)
+    (hsign : Ecdsa.signRecoverable (EC.ops EC.secp256k1)
+      (Rfc6979.challenge EC.secp256k1.n (engineEcdsaDigest secpCrypto cx
+        (p2pk (secpCompressedKey ((EC.ops EC.secp256k1).mul q EC.secp256k1.G))) .BASE ht)) q k true = .ok (r, s, kid))
+    (der : Bytes) (hder : Der.serialize r s = .ok der) :
+    ∃ ss wit, finalizedInput vk ⟨some (p2pk (secpCompressedKey ((EC.ops EC.secp256k1).mul q EC.secp256k1.G))), [], [],
+        [(secpCompressedKey ((EC.ops EC.secp256k1).mul q EC.secp256k1.G), der ++ [UInt8.ofNat ht])]⟩ = .ok (ss, wit) ∧
+      verifyScript (envOf secpCrypto flags cx) ss
+        (p2pk (secpCompressedKey ((EC.ops EC.secp256k1).mul q EC.secp256k1.G))) wit = .ok () := by
+  obtain ⟨henc, h8, h72, h30⟩ := built_sig_passes_encoding flags ht hht hd hk hsign der hder
+  refine closure_p2pk_secp256k1 vk flags cx _ ht hht (secpCompressedKey_compressed _)
+    (secpParsePub_built q hq) hk hsign der hder (by simp only [Gen.VarInt.MAX_SIZE]; omega) henc
+    (by simp only [List.length_append, List.length_singleton]; omega)
+    (by simp only [List.length_append, List.length_singleton]; omega) ?_
+  intro e
+  have h0 : getB (der ++ [UInt8.ofNat ht]) 0 = 0x30 := by
+    rw [getB_append_left der _ 0 (by omega)]; exact h30
+  rw [e] at h0
+  rcases secpCompressedKey_head ((EC.ops EC.secp256k1).mul q EC.secp256k1.G) with h2 | h2 <;>
+    · rw [h2] at h0; exact absurd h0 (by decide)
+
 end Props.C10
